@@ -1,9 +1,10 @@
 package limit_test
 
 import (
+	"os"
+	"strings"
 	"fmt"
-	"strconv"
-	"sync"
+		"sync"
 	"testing"
 	"time"
 
@@ -137,11 +138,17 @@ func (r *c08Rescue) decide(nowMs, n int64) int {
 
 func (r *c08Rescue) consume(n int64) { r.level -= n * 1000 }
 
-// ---- interpreter (both token rules) ----
+// ---- interpreter (all token rules) ----
 
 type c08Grant struct{ sec, n int64 }
 
-func c08TokenInterp(t *testing.T, c c08TCase, outageRule bool) (v kit.Verdict) {
+const (
+	c08RuleToken   = iota // no outage; caller-only / server-only clock steps
+	c08RuleOutage         // deterministic outages (drop / err), exact oracle
+	c08RuleRestart        // real Close/Restart of the server, tolerant oracle
+)
+
+func c08TokenInterp(t *testing.T, c c08TCase, rule int) (v kit.Verdict) {
 	srv := c08GetServer()
 	srv.reset()
 	var fail string
@@ -149,8 +156,6 @@ func c08TokenInterp(t *testing.T, c c08TCase, outageRule bool) (v kit.Verdict) {
 	ntDenyThenGrant := false
 	ntOutageDeny, ntRecovered := false, false
 	res := kit.Bubble(t, func() {
-		c08EnterBubble()
-		defer c08LeaveBubble()
 		store := redis.New(srv.addr)
 		base := c08Epoch // caller clock origin: data, independent of the bubble clock
 		nl := len(c.Lims)
@@ -159,9 +164,10 @@ func c08TokenInterp(t *testing.T, c c08TCase, outageRule bool) (v kit.Verdict) {
 		rescB := make([]*c08Rescue, nl)
 		keys := make([]string, nl)
 		grants := make([][]c08Grant, nl)
-		denied := make([]bool, nl)       // a Redis-side denial happened (token rule)
-		outDenied := make([]bool, nl)    // a denial in the current outage
-		outTokens := make([]int64, nl)   // tokens requested in the current outage
+		denied := make([]bool, nl)     // a Redis-side denial happened
+		outDenied := make([]bool, nl)  // a denial in the current outage
+		outTokens := make([]int64, nl) // tokens requested in the current outage
+		onRedis := make([]bool, nl)    // restart rule: served by Redis since the last restart
 		for i, l := range c.Lims {
 			keys[i] = fmt.Sprintf("c08t%d", i)
 			lims[i] = limit.NewTokenLimiter(l.Rate, l.Burst, store, keys[i])
@@ -173,102 +179,63 @@ func c08TokenInterp(t *testing.T, c c08TCase, outageRule bool) (v kit.Verdict) {
 		outages := 0
 		serverOnly := false
 
-		// one request (or a batch of identical concurrent requests) against limiter l
-		request := func(what string, l int, n int64, callers int) bool {
-			now := base.Add(time.Duration(callerMs) * time.Millisecond)
-			sec := now.Unix()
-			got := make([]bool, callers)
-			if callers == 1 {
-				got[0] = lims[l].AllowN(now, int(n))
-			} else {
-				var wg sync.WaitGroup
-				for j := 0; j < callers; j++ {
-					wg.Add(1)
-					go func(j int) {
-						defer wg.Done()
-						got[j] = lims[l].AllowN(now, int(n))
-					}(j)
-				}
-				wg.Wait()
-				classes["concurrent"] = true
+		// Redis side: sequential model; identical requests => the number of grants is order-independent
+		judgeRedis := func(what string, l int, sec, n int64, callers, granted int) bool {
+			b := redisB[l]
+			if f, _ := b.filled(sec, serverMs); f == n {
+				classes["request-equals-available"] = true
 			}
-			granted := 0
-			for _, g := range got {
-				if g {
-					granted++
+			want := 0
+			for j := 0; j < callers; j++ {
+				if b.allow(sec, serverMs, n) {
+					want++
+				}
+				if b.forgot {
+					classes["bucket-forgotten-by-server-ttl"] = true
 				}
 			}
-			if !down {
-				// Redis side: sequential model; identical requests => the number of grants is order-independent
-				b := redisB[l]
-				if f, _ := b.filled(sec, serverMs); f == n {
-					classes["request-equals-available"] = true
-				}
-				want := 0
-				for j := 0; j < callers; j++ {
-					if b.allow(sec, serverMs, n) {
-						want++
-					}
-					if b.forgot {
-						classes["bucket-forgotten-by-server-ttl"] = true
-					}
-				}
-				if granted != want {
-					fail = fmt.Sprintf("%s: caller second %d, server t=%dms: %d of %d requests for %d tokens granted, reference bucket (rate %d burst %d) grants %d (tokens left in model %d)",
-						what, sec, serverMs, granted, callers, n, b.rate, b.burst, want, b.tokens)
-					return false
-				}
-				for j := 0; j < granted; j++ {
-					grants[l] = append(grants[l], c08Grant{sec, n})
-				}
-				if granted < callers {
-					denied[l] = true
-					classes["deny"] = true
-				}
-				if granted > 0 && denied[l] {
-					classes["grant-after-deny"] = true
-					ntDenyThenGrant = true
-				}
-				if n > b.burst {
-					classes["n>burst"] = true
-				}
-				if outages > 0 {
-					// returned to Redis: the server-side timestamp key must have been written by this call
-					ts, ok := srv.get("{" + keys[l] + "}.ts")
-					if !ok || ts != strconv.FormatInt(sec, 10) {
-						fail = fmt.Sprintf("%s: Redis answers again (recovered, settled) but the limiter did not use it: server key {%s}.ts = %q (present %v), want %d",
-							what, keys[l], ts, ok, sec)
-						return false
-					}
-					classes["recovered-call-on-redis"] = true
-					ntRecovered = true
-				}
-				return true
+			if granted != want {
+				fail = fmt.Sprintf("%s: caller second %d, server t=%dms: %d of %d requests for %d tokens granted, reference bucket (rate %d burst %d) grants %d (tokens left in model %d)",
+					what, sec, serverMs, granted, callers, n, b.rate, b.burst, want, b.tokens)
+				return false
 			}
-			// outage: in-process bucket in continuous time
+			for j := 0; j < granted; j++ {
+				grants[l] = append(grants[l], c08Grant{sec, n})
+			}
+			if granted < callers {
+				denied[l] = true
+				classes["deny"] = true
+			}
+			if granted > 0 && denied[l] {
+				classes["grant-after-deny"] = true
+				ntDenyThenGrant = true
+			}
+			if n > b.burst {
+				classes["n>burst"] = true
+			}
+			return true
+		}
+		// in-process side: continuous time, sequential, identical requests
+		judgeRescue := func(what string, l int, n int64, callers, granted int) bool {
 			r := rescB[l]
 			outTokens[l] += n * int64(callers)
-			minG, maxG := 0, 0
+			want := 0
 			for j := 0; j < callers; j++ {
 				switch r.decide(callerMs, n) {
 				case 1:
-					minG++
-					maxG++
+					want++
 					r.consume(n)
 				case 0:
 					classes["outage-boundary-within-tolerance"] = true
-					maxG++
-					if granted > minG { // follow the observation
-						minG++
+					if granted > want { // either is accepted: follow the observation
+						want++
 						r.consume(n)
-					} else {
-						maxG--
 					}
 				}
 			}
-			if granted < minG || granted > maxG {
-				fail = fmt.Sprintf("%s: Redis unreachable, caller t=%dms: %d of %d requests for %d tokens granted, in-process reference bucket (rate %d burst %d, level %.3f) grants %d..%d",
-					what, callerMs, granted, callers, n, r.rate, r.burst, float64(r.level)/1000, minG, maxG)
+			if granted != want {
+				fail = fmt.Sprintf("%s: Redis unreachable, caller t=%dms: %d of %d requests for %d tokens granted, in-process reference bucket (rate %d burst %d, level now %.3f) grants %d",
+					what, callerMs, granted, callers, n, r.rate, r.burst, float64(r.level)/1000, want)
 				return false
 			}
 			if granted < callers {
@@ -284,76 +251,184 @@ func c08TokenInterp(t *testing.T, c c08TCase, outageRule bool) (v kit.Verdict) {
 			return true
 		}
 
+		// one request (or a batch of identical concurrent requests) against limiter l
+		request := func(what string, l int, n int64, callers int) bool {
+			now := base.Add(time.Duration(callerMs) * time.Millisecond)
+			sec := now.Unix()
+			evalsBefore := srv.evalCount("{" + keys[l] + "}.tokens")
+			got := make([]bool, callers)
+			if callers == 1 {
+				got[0] = lims[l].AllowN(now, int(n))
+			} else {
+				var wg sync.WaitGroup
+				for j := 0; j < callers; j++ {
+					wg.Add(1)
+					go func(j int) {
+						defer wg.Done()
+						got[j] = lims[l].AllowN(now, int(n))
+					}(j)
+				}
+				wg.Wait()
+				classes["concurrent"] = true
+			}
+			evals := srv.evalCount("{"+keys[l]+"}.tokens") - evalsBefore
+			granted := 0
+			for _, g := range got {
+				if g {
+					granted++
+				}
+			}
+			switch {
+			case down:
+				return judgeRescue(what, l, n, callers, granted)
+			case rule == c08RuleRestart:
+				// Redis answers, but go-redis may still hold connections killed by an
+				// earlier Close (this or a previous case): a command that used up its
+				// 4 attempts on them legitimately fails and the limiter falls back.
+				// Judge the decision by whoever took it.
+				if evals == 1 {
+					onRedis[l] = true
+					classes["restart-call-on-redis"] = true
+					if outages > 0 {
+						ntRecovered = true
+					}
+					return judgeRedis(what, l, sec, n, 1, granted)
+				}
+				classes["restart-call-on-fallback-while-redis-up"] = true
+				return judgeRescue(what, l, n, 1, granted)
+			default:
+				if outages > 0 {
+					// "returns to Redis once it answers again": after recovery and the
+					// settling time every decision must have been taken by the script
+					if evals != callers {
+						fail = fmt.Sprintf("%s: Redis answers again (recovered, settled) but only %d of %d requests reached the server's script; the limiter is still on its in-process bucket",
+							what, evals, callers)
+						return false
+					}
+					classes["recovered-call-on-redis"] = true
+					ntRecovered = true
+				}
+				return judgeRedis(what, l, sec, n, callers, granted)
+			}
+		}
+
+		coupled := func(ms int) {
+			d := time.Duration(ms) * time.Millisecond
+			srv.fastForward(d)
+			time.Sleep(d)
+			callerMs += int64(ms)
+			serverMs += int64(ms)
+		}
+
+	ops:
 		for i, o := range c.Ops {
 			what := fmt.Sprintf("op %d %+v", i, o)
 			switch o.K {
 			case "allow":
 				if !request(what, o.L, int64(o.N), 1) {
-					return
+					break ops
 				}
 			case "callow":
 				if !request(what, o.L, int64(o.N), o.C) {
-					return
+					break ops
 				}
 			case "adv":
-				d := time.Duration(o.D) * time.Millisecond
 				switch o.M {
 				case "caller":
 					callerMs += int64(o.D)
 					classes["caller-only-advance"] = true
 				case "server":
-					srv.fastForward(d)
+					srv.fastForward(time.Duration(o.D) * time.Millisecond)
 					serverMs += int64(o.D)
 					serverOnly = true
 					classes["server-only-advance"] = true
 				default:
-					srv.fastForward(d)
-					time.Sleep(d)
-					callerMs += int64(o.D)
-					serverMs += int64(o.D)
+					coupled(o.D)
 				}
 				if o.D%1000 != 0 {
 					classes["fractional-second"] = true
 				}
 			case "outage":
 				if !down {
-					srv.outage()
-					c08Dirty = true
+					switch o.M {
+					case "drop":
+						srv.setMode(c08Drop)
+					case "err":
+						srv.setMode(c08Err)
+					default:
+						srv.closeServer()
+					}
 					down = true
 					outages++
 					for l := range outDenied {
 						outDenied[l], outTokens[l] = false, 0
 					}
-					classes["outage"] = true
+					classes["outage-"+o.M] = true
 					if outages > 1 {
 						classes["second-outage"] = true
 					}
 				}
 			case "recover":
 				if down {
-					srv.recover()
+					srv.setMode(c08Up)
+					srv.restartServer()
 					down = false
-					// settle: nothing is requested until the monitor had time to ping
-					d := time.Duration(o.D) * time.Millisecond
-					srv.fastForward(d)
-					time.Sleep(d)
-					callerMs += int64(o.D)
-					serverMs += int64(o.D)
-					time.Sleep(c08IdleSkip) // bubble clock only: pooled connections killed by the restart become idle-stale
+					for l := range onRedis {
+						onRedis[l] = false
+					}
+					// settle: nothing is requested until the monitors had time to ping
+					coupled(o.D)
 				}
 			}
 		}
-		// let monitors of a still-open outage finish so that the bubble can end
+		// let the monitors of a still-open outage finish so that the bubble can end
 		if down {
-			srv.recover()
+			srv.setMode(c08Up)
+			srv.restartServer()
+			down = false
+			for l := range onRedis {
+				onRedis[l] = false
+			}
+		}
+		if fail == "" && rule == c08RuleRestart && outages > 0 {
+			// liveness after a real restart: a limiter may lose single requests to
+			// dead pooled connections (each failure discards 4 of them; the pool
+			// holds some 10-20), but it must come back. One request per second and
+			// limiter until each has been served by Redis again; 40 rounds is far
+			// beyond what dead connections can explain.
+			for round := 0; round < 40 && fail == ""; round++ {
+				pending := false
+				for l := range lims {
+					if !onRedis[l] {
+						pending = true
+					}
+				}
+				if !pending {
+					break
+				}
+				coupled(1000)
+				for l := range lims {
+					if !onRedis[l] && !request(fmt.Sprintf("probe %d of limiter %d after the last restart", round, l), l, 1, 1) {
+						break
+					}
+				}
+			}
+			for l := range lims {
+				if fail == "" && !onRedis[l] {
+					fail = fmt.Sprintf("limiter %d never returned to Redis: 40 requests, one per second after the server was restarted, were all decided by the in-process bucket", l)
+				}
+			}
 		}
 		if outages > 0 {
 			time.Sleep(11 * time.Second)
 		}
+		if fail != "" {
+			return
+		}
 
 		// admitted events between second s and s+t <= burst + rate*t (histories
 		// in which caller time never lags server time, no outage)
-		if !serverOnly && outages == 0 {
+		if !serverOnly && outages == 0 && rule != c08RuleRestart {
 			for l, g := range grants {
 				rate, burst := int64(c.Lims[l].Rate), int64(c.Lims[l].Burst)
 				for a := 0; a < len(g); a++ {
@@ -371,10 +446,10 @@ func c08TokenInterp(t *testing.T, c c08TCase, outageRule bool) (v kit.Verdict) {
 			classes["bound-checked"] = true
 		}
 	})
-	if outageRule {
-		v.NonTrivial = ntOutageDeny && ntRecovered
-	} else {
+	if rule == c08RuleToken {
 		v.NonTrivial = ntDenyThenGrant
+	} else {
+		v.NonTrivial = ntOutageDeny && ntRecovered
 	}
 	v.Classes = c08Classes(classes)
 	if fail != "" {
@@ -478,11 +553,13 @@ func c08TokenGen(rt *rapid.T) c08TCase {
 
 // c08OutageGen: coupled clocks only; outages and recoveries at generated
 // points. The first request of a limiter in an outage is sequential, so an
-// outage produces at most one failed command per limiter (<= 3): the redis
-// wrapper's breaker (protection = 5 failures per 10 s window, and every
-// recovery moves the bubble clock by 5 minutes) can never start rejecting
-// commands by itself, which would be an outage the generator did not ask for.
-func c08OutageGen(rt *rapid.T) c08TCase {
+// outage produces one failed command per limiter, and a case has at most 5
+// (limiter, outage) pairs: the redis wrapper's breaker (protection = 5
+// failures per 10 s window) can then never start rejecting commands by itself,
+// which would be an outage the generator did not ask for.
+func c08OutageGen(rt *rapid.T) c08TCase { return c08OutageGenModes(rt, strings.Split(os.Getenv("C08_MODES"), ","), true) }
+
+func c08OutageGenModes(rt *rapid.T, modes []string, concurrent bool) c08TCase {
 	c := c08TCase{Lims: c08GenLims(rt, 3)}
 	const epoch = int64(946684800)
 	nl := len(c.Lims)
@@ -498,8 +575,11 @@ func c08OutageGen(rt *rapid.T) c08TCase {
 	seen := make([]bool, nl) // limiter already noticed the current outage
 	n := rapid.IntRange(4, 60).Draw(rt, "nops")
 	for i := 0; i < n; i++ {
-		kinds := []string{"allow", "allow", "allow", "allow", "allow", "allow", "callow", "adv", "adv"}
-		if !down && outages < 4 {
+		kinds := []string{"allow", "allow", "allow", "allow", "allow", "allow", "adv", "adv"}
+		if concurrent {
+			kinds = append(kinds, "callow")
+		}
+		if !down && (outages+1)*nl <= 5 {
 			kinds = append(kinds, "outage", "outage")
 		}
 		if down {
@@ -573,7 +653,7 @@ func c08OutageGen(rt *rapid.T) c08TCase {
 			for l := range seen {
 				seen[l] = false
 			}
-			c.Ops = append(c.Ops, c08TOp{K: "outage"})
+			c.Ops = append(c.Ops, c08TOp{K: "outage", M: rapid.SampledFrom(modes).Draw(rt, "outage-kind")})
 		case "recover":
 			down = false
 			d := int64(rapid.SampledFrom([]int{1000, 1500, 3000, 11000}).Draw(rt, "settle"))
@@ -586,12 +666,12 @@ func c08OutageGen(rt *rapid.T) c08TCase {
 
 func TestVerif_C08_token(t *testing.T) {
 	c08GetServer()
-	kit.Run(t, "C08", "token", kit.Opts{Quick: 500, Thorough: 48000}, c08TokenGen,
-		func(c c08TCase) kit.Verdict { return c08TokenInterp(t, c, false) })
+	kit.Run(t, "C08", "token", kit.Opts{Quick: 400, Thorough: 48000}, c08TokenGen,
+		func(c c08TCase) kit.Verdict { return c08TokenInterp(t, c, c08RuleToken) })
 }
 
 func TestVerif_C08_outage(t *testing.T) {
 	c08GetServer()
-	kit.Run(t, "C08", "token-outage", kit.Opts{Quick: 400, Thorough: 32000}, c08OutageGen,
-		func(c c08TCase) kit.Verdict { return c08TokenInterp(t, c, true) })
+	kit.Run(t, "C08", "token-outage", kit.Opts{Quick: 300, Thorough: 24000}, c08OutageGen,
+		func(c c08TCase) kit.Verdict { return c08TokenInterp(t, c, c08RuleOutage) })
 }
